@@ -42,7 +42,8 @@ SolveClause(c, r) ==
       [] c = "invalidStartOnlyIfInvalid" -> (r.status = "INVALID_START" => r.start \in r.obst)
       [] c = "invalidGoalOnlyIfInvalid" -> (r.status = "INVALID_GOAL" => r.goal \in r.obst)
       [] c = "exactOnlyIfReachable" ->
-             (r.status = "EXACT" /\ r.thr # "huge" => r.goal \in Reach(r.W, r.H, r.obst, r.start))
+             (r.status = "EXACT" /\ r.thr = "tiny" /\ (\E i \in 1..Len(r.sols) : r.sols[i].added /\ ~r.sols[i].approx)
+                  => r.goal \in Reach(r.W, r.H, r.obst, r.start))
       [] c = "noSolutionFromInvalidStart" ->
              (r.start \in r.obst => \A i \in 1..Len(r.sols) : ~r.sols[i].added)
       [] c = "boundedReturn" -> (r.kval >= 0 => r.evals <= r.kval + B)
